@@ -70,6 +70,89 @@ func calleeName(c *ssa.CallCommon) string {
 }
 
 func (vc *FnVC) call(in *ssa.Call) {
+	vc.callInner(in)
+	vc.applyOnCalls(in)
+}
+
+// applyOnCalls updates ghost variables according to the contract's oncall rules.
+func (vc *FnVC) applyOnCalls(in *ssa.Call) {
+	if vc.fc == nil || len(vc.fc.OnCalls) == 0 {
+		return
+	}
+	c := &in.Call
+	if _, ok := c.Value.(*ssa.Builtin); ok {
+		return
+	}
+	name := calleeName(c)
+	short := name
+	if c.IsInvoke() {
+		short = c.Method.Name()
+	} else if callee := c.StaticCallee(); callee != nil {
+		short = callee.Name()
+	} else if k := strings.LastIndex(name, "."); k >= 0 {
+		short = name[k+1:]
+	}
+	for _, oc := range vc.fc.OnCalls {
+		match := false
+		for _, n := range oc.Names {
+			if n == short {
+				match = true
+			}
+		}
+		if !match {
+			continue
+		}
+		env := vc.pointEnv(in)
+		for i, a := range c.Args {
+			env.vars[fmt.Sprintf("arg%d", i+1)] = vc.val(a)
+		}
+		if t, ok := vc.vals[in]; ok {
+			if t.Sort == "Tuple" {
+				for i, e := range t.Tup {
+					env.vars[fmt.Sprintf("result%d", i)] = e
+				}
+			} else {
+				env.vars["result"] = t
+			}
+		}
+		// simultaneous assignment: evaluate all right-hand sides first
+		var vals []Term
+		okAll := true
+		for i, ex := range oc.Exprs {
+			t, err := env.Elab(ex.Expr)
+			if err != nil {
+				vc.errorf("oncall %v: %s = %s: %v", oc.Names, oc.Vars[i], ex.Text, err)
+				okAll = false
+				break
+			}
+			vals = append(vals, t)
+		}
+		if !okAll {
+			continue
+		}
+		for i, v := range oc.Vars {
+			var gv *GhostVar
+			for _, g := range vc.fc.GhostVars {
+				if g.Name == v {
+					gv = g
+				}
+			}
+			if gv == nil {
+				vc.errorf("oncall assigns undeclared ghost variable %s", v)
+				continue
+			}
+			comp, sort, es := ghostComp(gv)
+			if vals[i].Sort != es {
+				vc.errorf("oncall %s: ghost variable %s has sort %s, value has %s", short, v, es, vals[i].Sort)
+				continue
+			}
+			vc.heapSet(comp, sort, fmt.Sprintf("(store %s 0 %s)", vc.heapGet(comp, sort), vals[i].S))
+		}
+		oc.used = true
+	}
+}
+
+func (vc *FnVC) callInner(in *ssa.Call) {
 	c := &in.Call
 	if b, ok := c.Value.(*ssa.Builtin); ok {
 		vc.builtin(in, b)
@@ -617,8 +700,12 @@ func (vc *FnVC) havocCall(in *ssa.Call, name string) {
 		}
 	}
 	if vc.prog != nil && vc.prog.isReadonlyArgs(name) {
-		vc.havocked[name+" [arguments read-only by directive]"] = true
+		vc.havocked[name+" [non-receiver arguments read-only by directive]"] = true
 		delete(vc.havocked, name)
+		// a pointer receiver may still be written
+		if sc := c.StaticCallee(); sc != nil && sc.Signature.Recv() != nil && len(c.Args) > 0 {
+			vc.havocArg(c.Args[0], in.Pos(), name)
+		}
 	} else {
 		for _, a := range args {
 			vc.havocArg(a, in.Pos(), name)
